@@ -175,8 +175,13 @@ func runOne(p *an.Prog, id, tier, verif, repo string, jobs, seed int, start time
 				ctx.Undecided(id+".panic", "analyser-panic", "the analyser must not panic", nil, nil, fmt.Sprint(e))
 			}
 		}()
-		r.Run(ctx)
+		rules.Execute(r, ctx)
 	}()
+	if os.Getenv("HDRCHECK_LIST") != "" {
+		for _, o := range ctx.Obls {
+			fmt.Printf("%-11s %s | %s | %s\n", o.Status, o.Key, o.Func, o.Rule)
+		}
+	}
 	extra := map[string]any{"not_decided": r.NotDecided}
 	stCode := 0
 	if tier == "thorough" {
